@@ -76,46 +76,67 @@ def r19_1(ctx: Ctx):
 
 def r19_2(ctx: Ctx):
     rid = 'R19.2'
-    ctx.rule(rid, 'covering lookup: scanning from the first item via the iterator, return the first item with '
-                  'item.x > x (strict)')
+    ctx.rule(rid, 'covering lookup: the returned item satisfies item.x > x (strict) and its scan predecessor was '
+                  'rejected with not(item.x > x); None only when no visited item satisfied the test')
     sd = ctx.ix.cls('SearchData')
     f = sd.lookup('FindDataItemByOneDimensionalPoint')
     ex = ctx.explorer(unroll=2)
-    gx = ctx.ix.cls('SearchDataItem').lookup('GetX')
+    item_cls = ctx.ix.cls('SearchDataItem')
+    gx = item_cls.lookup('GetX')
+    leftF, rightF = K.link_fields(ctx)
     x = var(f.param_names[1])
+    X = lambda it: C.getter_value(ex, gx, it)
     n = 0
     for p in C.normal_paths(ex.explore(f)):
         n += 1
-        iters = [e for e in p.events if e.kind == 'iter' and e.depth == 0]
+        guards = C.lits_mod_ver(p.guards)
+
+        def accepted(it) -> bool:
+            return C.has_lit(guards, C.lits_mod_ver([Lit.cmp('>', X(it), x)])[0])
+
+        def rejected(it) -> bool:
+            return C.has_lit(guards, C.lits_mod_ver([Lit.cmp('>', X(it), x).negate()])[0])
+        iters = [e for e in p.events if e.kind == 'iter' and e.depth == 0 and e.d.get('var') is not None]
         v = p.value
         if key_of(v) == NONE:
-            # exhausted: every visited item was rejected with not(item.x > x)
-            ok = all(C.has_lit(p.guards, Lit.cmp('>', C.getter_value(ex, gx, it.d['var']), x).negate()) for it in iters)
+            visited = [it.d['var'] for it in iters]
+            ok = all(rejected(it) for it in visited)
+            # any item accepted on the path contradicts returning None
+            acc = [l for l in guards if l.kind == 'cmp' and l.op == '<' and any(
+                isinstance(a, tuple) and a and a[0] == 'attr' for a in l.rf.atoms())]
             ctx.check(ok, rid, f.short, f.loc(), 'None is returned only after every visited item failed item.x > x',
                       'the lookup gives up (returns None) without testing every visited item with item.x > x',
                       key=f'{rid}::{f.short}::exhausted')
             continue
-        last = iters[-1].d['var'] if iters else None
-        ok = last is not None and key_of(v) == key_of(last)
-        ctx.check(ok, rid, f.short, f.loc(), 'the returned item is the one just visited',
-                  f'the lookup returns {C.fmt(v)}, not the item that passed the test', key=f'{rid}::{f.short}::returns')
-        if not ok:
-            continue
-        g = Lit.cmp('>', C.getter_value(ex, gx, last), x)
-        ok1 = C.has_lit(p.guards, g)
+        ok1 = isinstance(v, RF) and accepted(v)
         ctx.check(ok1, rid, f.short, f.loc(), 'the returned item satisfies item.x > x (strict)',
-                  f'the returned item is not guarded by item.x > x (strict): guards {[repr(l) for l in p.guards]}',
-                  key=f'{rid}::{f.short}::strict')
-        ok2 = all(C.has_lit(p.guards, Lit.cmp('>', C.getter_value(ex, gx, it.d['var']), x).negate())
-                  for it in iters[:-1])
-        ctx.check(ok2, rid, f.short, f.loc(), 'all earlier items were rejected: the first match is returned',
-                  'an item is returned although an earlier item was not tested/rejected (not the first match)',
-                  key=f'{rid}::{f.short}::first-match')
+                  f'the lookup returns {C.fmt(v)} without the strict guard item.x > x on the path (guards '
+                  f'{[repr(l) for l in p.guards][:6]}): for a query equal to a stored coordinate the wrong interval '
+                  f'is returned', key=f'{rid}::{f.short}::strict')
+        # the scan predecessor of the returned item was rejected (first match)
+        pred_ok = False
+        vk = key_of(v)
+        vis = [key_of(it.d['var']) for it in iters]
+        if vk in vis:
+            i = vis.index(vk)
+            pred_ok = i == 0 and _starts_at_first(f) or (i > 0 and rejected(iters[i - 1].d['var']))
+            if i == 0 and not _starts_at_first(f):
+                pred_ok = False
+        if not pred_ok and isinstance(v, RF):
+            left = atomv(('attr', vk, leftF, 0))
+            none_left = C.has_lit(guards, C.lits_mod_ver([Lit('isnone', key=key_of(left), pol=True)])[0])
+            pred_ok = none_left or rejected(left)
+        ctx.check(pred_ok, rid, f.short, f.loc(), 'the item before the returned one was rejected: first match',
+                  f'the lookup returns {C.fmt(v)} although the item before it was not rejected with not(item.x > x): '
+                  f'not the first item to the right of the query', key=f'{rid}::{f.short}::first-match',
+                  detail={'guards': [repr(l) for l in p.guards]})
     ctx.floor(rid, 'paths of the covering lookup', n, 3)
+
+
+def _starts_at_first(f: FuncInfo) -> bool:
+    """A for loop over the container itself starts at the first item (iterator protocol: R19.4)."""
     fors = [nn for nn in ast.walk(f.node) if isinstance(nn, ast.For)]
-    whole = any(isinstance(nn.iter, ast.Name) and nn.iter.id == f.param_names[0] for nn in fors)
-    ctx.check(whole, rid, f.short, f.loc(), 'the scan iterates the container itself (from the first item)',
-              'the lookup does not scan the container from its first item', key=f'{rid}::{f.short}::whole')
+    return any(isinstance(nn.iter, ast.Name) and nn.iter.id == f.param_names[0] for nn in fors)
 
 
 def r19_4(ctx: Ctx):
